@@ -98,7 +98,12 @@ func (f *finisher) worker(workerID string) {
 		case <-controlChans.PauseCh:
 			verifhook.At("fin.pause.ack", workerID)
 			logger.Debug("received pause event")
-			controlChans.ResumeCh <- struct{}{}
+			select {
+			case controlChans.ResumeCh <- struct{}{}:
+			case <-f.ctx.Done():
+				logger.Debug("shutting down while paused")
+				return
+			}
 			verifhook.At("fin.resumed", workerID)
 			logger.Debug("received resume event")
 		case seed, ok := <-f.inputCh:
